@@ -334,6 +334,42 @@ static void do_N(char *line)
     for (i = 0; i < ntok; i++) free(tok[i]);
     free(pre); free(suf);
 }
+
+/* U <fn> <nbytes> <lo> <hi> <step> <prefixhex|-> <suffixhex|-> : every nbytes-long big-endian byte sequence with value in
+ * [lo,hi) stepping by <step>, skipping sequences that contain a NUL byte; validator on prefix+seq+suffix; packed. */
+static void do_U(char *line)
+{
+    char fn[32], pre_h[1024], suf_h[1024];
+    int nb, i;
+    unsigned long lo, hi, step, v;
+    size_t prel, sufl;
+    char *pre, *suf;
+    val_f f;
+    long count = 0;
+    if (sscanf(line, "U %31s %d %lu %lu %lu %1023s %1023s", fn, &nb, &lo, &hi, &step, pre_h, suf_h) != 7) { printf("ERR parse\n"); return; }
+    f = fn_by_name(fn);
+    if (!f || nb < 1 || nb > 4 || step < 1) { printf("ERR fn\n"); return; }
+    pre = hexdup(pre_h, &prel);
+    suf = hexdup(suf_h, &sufl);
+    for (v = lo; v < hi; v += step) {
+        unsigned char x[4];
+        int nul = 0, rc;
+        char *s;
+        for (i = 0; i < nb; i++) { x[i] = (unsigned char)(v >> (8 * (nb - 1 - i))); if (!x[i]) nul = 1; }
+        if (nul) continue;
+        s = malloc(prel + (size_t)nb + sufl + 1);
+        memcpy(s, pre, prel); memcpy(s + prel, x, (size_t)nb); memcpy(s + prel + nb, suf, sufl);
+        s[prel + nb + sufl] = 0;
+        g_case = (long)v;
+        rc = f(s, s + prel + nb + sufl);
+        putchar((rc >= -40 && rc <= 40) ? (char)(80 + rc) : '!');
+        free(s);
+        count++;
+        if ((count & 0x3fff) == 0) putchar('\n');
+    }
+    printf("\nEND %ld\n", count);
+    free(pre); free(suf);
+}
 #endif
 
 static void do_S(char *line)
@@ -373,6 +409,7 @@ int main(void)
         case 'L': do_L(line); break;
         case 'D': do_D(line); break;
         case 'N': do_N(line); break;
+        case 'U': do_U(line); break;
 #endif
         case 'S': do_S(line); break;
         case 'Q': goto out;
